@@ -5,6 +5,8 @@
 //!   c13 aopen text=<hex>   zarr.json stored, Array::open, metadata(), store_metadata, reopen, store again, operations
 //!                          -> rej-open | ok meta=<hex> stored=<hex> stored2=<hex> ops=<ok|panic>
 //!   c13 gopen text=<hex>   same for groups                                          -> rej-open | ok meta= stored= stored2=
+//!   c13 a2doc|g2doc text=<hex>  ArrayMetadataV2 / GroupMetadataV2 serde only       -> ser=<hex> ser2=<hex|rej> | rej
+//!   c13 v2to3 text=<hex>   ArrayMetadataV2 parsed, array_metadata_v2_to_v3 (default aliases), serialised  -> rej | rej-conv | v3=<hex>
 //!   c13 cfg store=<kind> ; c13 op <mkgroup|mkarray|rmmeta|rmnode|stray|children|paths|objs|tree|exists> ...
 use crate::c08::{make_store, DynStore, StoreCtx};
 use crate::util::*;
@@ -70,6 +72,15 @@ pub fn exec_doc(line: &str) -> String {
         "gdoc" => twice::<GroupMetadataV3>(&text),
         "a2doc" => twice::<zarrs::metadata::v2::ArrayMetadataV2>(&text),
         "g2doc" => twice::<zarrs::metadata::v2::GroupMetadataV2>(&text),
+        "v2to3" => {
+            // the public V2 -> V3 metadata conversion with the default alias tables (what `Array::new_with_metadata` calls)
+            let a: zarrs::metadata::v2::ArrayMetadataV2 = match serde_json::from_slice(&text) { Ok(x) => x, Err(_) => return "rej".into() };
+            let config = zarrs::config::global_config();
+            match zarrs::metadata::v2_to_v3::array_metadata_v2_to_v3(&a, config.codec_aliases_v2(), config.codec_aliases_v3(), config.data_type_aliases_v2(), config.data_type_aliases_v3()) {
+                Ok(v3) => format!("v3={}", hex(serde_json::to_string(&v3).unwrap().as_bytes())),
+                Err(e) => { if std::env::var("VERIF_ERR_MSG").is_ok() { eprintln!("ERR: {}", e); } "rej-conv".into() }
+            }
+        }
         "aopen" => {
             let sc = make_store("memory");
             let store: DynStore = sc.store.clone();
@@ -392,6 +403,139 @@ fn gen_group_doc(rng: &mut Rng) -> Doc {
     d
 }
 
+
+// ---------------------------------------------------------------- V2 documents (model: lean/ZarrsModel/Model/MetaV2.lean)
+
+const V2_TYPED: [&str; 10] = ["zarr_format", "shape", "chunks", "dtype", "compressor", "fill_value", "order", "filters", "dimension_separator", "attributes"];
+
+/// a V2 array document over the space `ArrayMetadataV2` accepts and `array_metadata_v2_to_v3` converts
+fn gen_v2_array_doc(rng: &mut Rng) -> Doc {
+    let rank = rng.below(4) as usize;
+    let dims = |rng: &mut Rng, lo: u64, hi: u64| format!("[{}]", (0..rank).map(|_| rng.range(lo, hi).to_string()).collect::<Vec<_>>().join(","));
+    let mut d = Doc { fields: vec![], plug_ok: true };
+    d.fields.push(("zarr_format".into(), "2".into()));
+    d.fields.push(("shape".into(), dims(rng, 0, 5)));
+    d.fields.push(("chunks".into(), dims(rng, 1, 3)));
+    // every data type string of the alias table, the regex form, and names that are passed through
+    let dts = ["|b1", "|i1", "<i2", ">i2", "<i4", ">i4", "<i8", ">i8", "|u1", "<u2", ">u2", "<u4", ">u4", "<u8", ">u8", "<f2", ">f2", "<f4", ">f4", "<f8", ">f8",
+        "<c8", ">c8", "<c16", ">c16", "|O", "|VX", "|V8", "|V16", "|V0", "|V", "|V1x", "|S3", "<U4", "<M8[ns]", "|b1", "|u1", "<f4", "<f8", ">i2"];
+    let dt = rng.pick(&dts).to_string();
+    d.fields.push(("dtype".into(), jstr(&dt)));
+    let compressors = ["null", "null", "{\"id\":\"zlib\",\"level\":1}", "{\"id\":\"gzip\",\"level\":5}", "{\"level\":9,\"id\":\"bz2\"}",
+        "{\"id\":\"blosc\",\"cname\":\"lz4\",\"clevel\":5,\"shuffle\":1,\"blocksize\":0}", "{\"id\":\"blosc\",\"cname\":\"zstd\",\"clevel\":0,\"shuffle\":0}",
+        "{\"id\":\"blosc\",\"cname\":\"blosclz\",\"clevel\":9,\"shuffle\":2,\"blocksize\":65536,\"typesize\":4}", "{\"shuffle\":-1,\"clevel\":3,\"cname\":\"lz4hc\",\"id\":\"blosc\"}",
+        "{\"id\":\"blosc\",\"cname\":\"snappy\",\"clevel\":1,\"shuffle\":-1,\"typesize\":null}", "{\"id\":\"blosc\",\"cname\":{\"zlib\":null},\"clevel\":1,\"shuffle\":1}",
+        "{\"id\":\"zstd\",\"level\":1}", "{\"level\":-5,\"id\":\"zstd\",\"checksum\":true}", "{\"id\":\"zstd\",\"level\":\"3\"}", "{\"id\":\"zstd\",\"level\":\"+22\",\"checksum\":false}", "{\"id\":\"zstd\",\"level\":\"-131072\"}",
+        "{\"id\":\"zfpy\",\"mode\":4,\"tolerance\":0.5}", "{\"id\":\"pcodec\",\"level\":8}", "{\"id\":\"https://codec.zarrs.dev/array_to_bytes/pcodec\",\"level\":4}",
+        "{\"id\":\"https://codec.zarrs.dev/bytes_to_bytes/bz2\",\"level\":4}", "{\"id\":\"zarrs.gdeflate\",\"level\":4}", "{\"id\":\"fletcher32\"}", "{\"id\":\"shuffle\",\"elementsize\":4}",
+        "{\"id\":\"unknown\",\"z\":1,\"a\":{\"k\":[1,2]}}", "{\"id\":\"lzma\"}", "{\"id\":\"\"}"];
+    match rng.below(12) { 0 => {} _ => d.fields.push(("compressor".into(), rng.pick(&compressors).to_string())) }
+    let fills = ["0", "1", "2", "7", "-1", "255", "1.5", "0.0", "-0.0", "1e-7", "18446744073709551615", "-9223372036854775808", "null", "\"NaN\"", "\"Infinity\"", "\"-Infinity\"", "\"AAA=\"", "\"\"", "\"nan\"", "\"0\"", "\"é\""];
+    d.fields.push(("fill_value".into(), rng.pick(&fills).to_string()));
+    d.fields.push(("order".into(), rng.pick(&["\"C\"", "\"C\"", "\"F\"", "\"F\"", "{\"C\":null}", "{\"F\":null}"]).to_string()));
+    let filters = ["null", "[]", "[{\"id\":\"shuffle\",\"elementsize\":4}]", "[{\"id\":\"delta\",\"dtype\":\"<f4\"},{\"elementsize\":2,\"id\":\"shuffle\"}]", "[{\"id\":\"vlen-utf8\"}]",
+        "[{\"id\":\"vlen-bytes\",\"x\":1}]", "[{\"id\":\"vlen-array\",\"dtype\":\"<i4\"}]", "[{\"id\":\"fixedscaleoffset\",\"offset\":1,\"scale\":2,\"dtype\":\"<f8\",\"astype\":\"|u1\"}]",
+        "[{\"id\":\"bitround\",\"keepbits\":3}]", "[{\"id\":\"https://codec.zarrs.dev/array_to_bytes/bitround\",\"keepbits\":3}]", "[{\"id\":\"zarrs.squeeze\"}]",
+        "[{\"id\":\"https://codec.zarrs.dev/array_to_bytes/vlen_v2\"}]", "[{\"id\":\"packbits\"},{\"id\":\"vlen-utf8\"},{\"id\":\"crc32c\"}]", "[{\"id\":\"zfpy\"}]", "[{\"id\":\"blosc\",\"cname\":\"bad\"}]"];
+    match rng.below(8) { 0 => {} _ => d.fields.push(("filters".into(), rng.pick(&filters).to_string())) }
+    if rng.chance(1, 2) { d.fields.push(("dimension_separator".into(), rng.pick(&["\".\"", "\"/\""]).to_string())); }
+    if rng.chance(1, 2) { let a = if rng.chance(1, 6) { "{}".to_string() } else { rand_obj(rng, 3, true) }; d.fields.push(("attributes".into(), a)); }
+    // additional fields: exempt objects, arbitrary values, the `node_type` tag in its forms
+    for _ in 0..rng.below(4) {
+        let k = rng.pick(&["extra", "zz", "Aux", "é", "0", "~", "node_type", "dimension_names", "zarr_consolidated_format", "id"]).to_string();
+        if d.fields.iter().any(|f| f.0 == k) { continue; }
+        let v = if k == "node_type" && rng.chance(2, 3) { rng.pick(&["\"array\"", "\"array\"", "\"group\"", "\"Array\"", "null"]).to_string() }
+            else if rng.chance(2, 3) {
+                let o = rand_obj(rng, 2, false);
+                let inner = o[1..o.len() - 1].to_string();
+                let mut parts: Vec<String> = if inner.is_empty() { vec![] } else { split_top(&inner) };
+                let at = rng.below(parts.len() as u64 + 1) as usize;
+                parts.insert(at, format!("\"must_understand\":{}", rng.pick(&["false", "false", "true", "0"])));
+                format!("{{{}}}", parts.join(","))
+            } else { rand_value(rng, 2) };
+        d.fields.push((k, v));
+    }
+    if rng.chance(1, 2) { for i in (1..d.fields.len()).rev() { let j = rng.below(i as u64 + 1) as usize; d.fields.swap(i, j); } }
+    d
+}
+
+/// break a V2 array document in one way; returns a label
+fn mutate_v2_doc(rng: &mut Rng, d: &mut Doc) -> &'static str {
+    match rng.below(16) {
+        0 => { d.set("zarr_format", rng.pick(&["3", "\"2\"", "2.0", "1", "null", "[2]", "-2"]).to_string()); "zarr_format" }
+        1 => { let k = rng.pick(&["zarr_format", "shape", "chunks", "dtype", "fill_value", "order"]).to_string(); d.remove(&k); "missing" }
+        2 => { d.set("shape", rng.pick(&["[1.0]", "[-1]", "\"x\"", "null", "[\"1\"]", "[18446744073709551616]", "{}", "3"]).to_string()); "shape-type" }
+        3 => { d.set("chunks", rng.pick(&["[0]", "[1,0]", "[1.5]", "null", "\"x\"", "[-1]", "{}"]).to_string()); "chunks-type" }
+        4 => { let cur = d.fields.iter().find(|f| f.0 == "shape").map(|f| f.1.clone()).unwrap_or_default(); let n = if cur == "[]" { "[1]".to_string() } else { format!("[{},1]", &cur[1..cur.len() - 1]) }; d.set("shape", n); "rank-shape" }
+        5 => { let cur = d.fields.iter().find(|f| f.0 == "chunks").map(|f| f.1.clone()).unwrap_or_default(); let n = if cur == "[]" { "[1]".to_string() } else { format!("[{},2]", &cur[1..cur.len() - 1]) }; d.set("chunks", n); "rank-chunks" }
+        6 => { d.set("dtype", rng.pick(&["\"f4\"", "\"\"", "\"=f4\"", "3", "null", "[]", "[[\"a\",\"<i4\"]]", "[[\"a\",\"<i4\",null]]", "[[\"a\",\"<i4\",[2,3]],[\"b\",\"|u1\",[]]]", "[[\"a\",\"<i4\",[2]],[\"b\",\"|u1\",null]]",
+            "[[\"a\"]]", "[[\"a\",\"b\",[1],2]]", "[[\"a\",3,null]]", "[[\"a\",\"<i4\",[-1]]]", "[{\"fieldname\":\"a\",\"datatype\":\"b\"}]", "{}", "true"]).to_string()); "dtype" }
+        7 => { d.set("compressor", rng.pick(&["\"gzip\"", "{}", "{\"level\":1}", "{\"id\":3}", "{\"id\":null}", "[]", "3", "{\"id\":\"blosc\"}", "{\"id\":\"blosc\",\"cname\":\"lz4\",\"clevel\":10,\"shuffle\":1}",
+            "{\"id\":\"blosc\",\"cname\":\"lz5\",\"clevel\":1,\"shuffle\":1}", "{\"id\":\"blosc\",\"cname\":\"lz4\",\"clevel\":1,\"shuffle\":3}", "{\"id\":\"blosc\",\"cname\":\"lz4\",\"clevel\":1,\"shuffle\":1,\"extra\":0}",
+            "{\"id\":\"blosc\",\"cname\":\"lz4\",\"clevel\":1.0,\"shuffle\":1}", "{\"id\":\"blosc\",\"cname\":\"lz4\",\"clevel\":1,\"shuffle\":\"shuffle\"}", "{\"id\":\"blosc\",\"cname\":\"lz4\",\"clevel\":1,\"shuffle\":1,\"blocksize\":null}",
+            "{\"id\":\"blosc\",\"cname\":\"lz4\",\"clevel\":1,\"shuffle\":1,\"blocksize\":-1}", "{\"id\":\"blosc\",\"cname\":\"lz4\",\"clevel\":1,\"shuffle\":1,\"typesize\":\"4\"}", "{\"id\":\"blosc\",\"cname\":{\"lz4\":1},\"clevel\":1,\"shuffle\":1}",
+            "{\"id\":\"blosc\",\"cname\":{\"lz4\":null,\"zstd\":null},\"clevel\":1,\"shuffle\":1}", "{\"id\":\"blosc\",\"cname\":\"LZ4\",\"clevel\":1,\"shuffle\":1}", "{\"id\":\"blosc\",\"clevel\":1,\"shuffle\":1}",
+            "{\"id\":\"zstd\"}", "{\"id\":\"zstd\",\"level\":23}", "{\"id\":\"zstd\",\"level\":-131073}", "{\"id\":\"zstd\",\"level\":1.0}", "{\"id\":\"zstd\",\"level\":\"x\"}", "{\"id\":\"zstd\",\"level\":\"\"}", "{\"id\":\"zstd\",\"level\":\" 3\"}",
+            "{\"id\":\"zstd\",\"level\":\"99999999999999999999\"}", "{\"id\":\"zstd\",\"level\":1,\"checksum\":1}", "{\"id\":\"zstd\",\"level\":1,\"x\":1}", "{\"id\":\"zstd\",\"checksum\":true}", "{\"id\":\"zstd\",\"level\":null}", "{\"id\":\"zstd\",\"level\":\"-0\"}",
+            "{\"id\":\"zstd\",\"level\":\"007\",\"checksum\":true}"]).to_string()); "compressor" }
+        8 => { d.set("fill_value", rng.pick(&["true", "false", "[0]", "{}", "[]", "{\"a\":1}"]).to_string()); "fill" }
+        9 => { d.set("order", rng.pick(&["\"c\"", "\"\"", "null", "3", "{\"C\":1}", "{\"C\":null,\"F\":null}", "{}", "[\"C\"]", "{\"X\":null}", "true"]).to_string()); "order" }
+        10 => { d.set("filters", rng.pick(&["\"x\"", "[3]", "{}", "[{}]", "[{\"id\":1}]", "[null]", "[\"shuffle\"]", "3", "[[{\"id\":\"a\"}]]"]).to_string()); "filters" }
+        11 => { d.set("dimension_separator", rng.pick(&["\"x\"", "null", "1", "\"\"", "\"..\"", "[\".\"]"]).to_string()); "separator" }
+        12 => { d.set("attributes", rng.pick(&["null", "[]", "3", "\"x\""]).to_string()); "attributes-type" }
+        13 => { let i = rng.below(d.fields.len() as u64) as usize; let f = d.fields[i].clone(); d.fields.push(f); "duplicate-key" }
+        14 => { let v = rng.pick(&["1", "\"s\"", "[]", "null", "{\"a\":1}", "{\"must_understand\":true,\"a\":1}", "{\"must_understand\":1}", "{\"must_understand\":null,\"b\":2}"]).to_string(); d.fields.push((rng.pick(&["unknown_field", "zz2", "node_type"]).to_string(), v)); "extra-field" }
+        _ => { d.set("dtype", "\"|b1\"".to_string()); d.set("fill_value", rng.pick(&["0", "1", "2", "true", "\"x\"", "1.0", "-1", "null"]).to_string()); "bool-fill" }
+    }
+}
+
+fn gen_v2_group_doc(rng: &mut Rng) -> Doc {
+    let mut d = Doc { fields: vec![("zarr_format".into(), "2".into())], plug_ok: true };
+    if rng.chance(2, 3) { let a = if rng.chance(1, 6) { "{}".to_string() } else { rand_obj(rng, 3, true) }; d.fields.push(("attributes".into(), a)); }
+    for _ in 0..rng.below(4) {
+        let k = rng.pick(&["extra", "zzz", "Aux", "é", "b", "shape", "node_type", "0"]).to_string();
+        if d.fields.iter().any(|f| f.0 == k) { continue; }
+        let v = if k == "node_type" && rng.chance(1, 2) { rng.pick(&["\"group\"", "\"array\""]).to_string() } else if rng.chance(1, 2) {
+            let o = rand_obj(rng, 2, false);
+            let inner = o[1..o.len() - 1].to_string();
+            let mut parts: Vec<String> = if inner.is_empty() { vec![] } else { split_top(&inner) };
+            let at = rng.below(parts.len() as u64 + 1) as usize;
+            parts.insert(at, "\"must_understand\":false".into());
+            format!("{{{}}}", parts.join(","))
+        } else { rand_value(rng, 2) };
+        d.fields.push((k, v));
+    }
+    match rng.below(14) {
+        0 => { d.set("zarr_format", rng.pick(&["3", "\"2\"", "2.0", "null"]).to_string()); }
+        1 => { d.remove("zarr_format"); }
+        2 => { d.set("attributes", rng.pick(&["null", "[]", "3"]).to_string()); }
+        3 => { let i = rng.below(d.fields.len() as u64) as usize; let f = d.fields[i].clone(); d.fields.push(f); }
+        _ => {}
+    }
+    if rng.chance(1, 2) { for i in (1..d.fields.len()).rev() { let j = rng.below(i as u64 + 1) as usize; d.fields.swap(i, j); } }
+    d
+}
+
+/// V2 documents judged by the model: `a2doc`, `g2doc`, `v2to3`
+fn generate_v2(rng: &mut Rng, n: usize, out: &mut Vec<String>) {
+    let fixed = ["[]", "\"x\"", "2", "null", "{}", "[2,[2],[1],\"|u1\",null,0,\"C\"]"];
+    for t in fixed { for verb in ["a2doc", "g2doc", "v2to3"] { out.push(format!("c13 {} dup=0 text={}", verb, hex(t.as_bytes()))); } }
+    for i in 0..n {
+        let mut d = gen_v2_array_doc(rng);
+        let label = if i % 3 == 2 { mutate_v2_doc(rng, &mut d) } else { "none" };
+        let t = d.text();
+        // a repeated key of a typed field is rejected by serde (the JSON model merges it): flagged for the driver
+        let dup = V2_TYPED.iter().any(|k| d.fields.iter().filter(|f| f.0 == *k).count() > 1);
+        out.push(format!("c13 a2doc dup={} mut={} text={}", dup as u8, label, hex(t.as_bytes())));
+        out.push(format!("c13 v2to3 dup={} mut={} text={}", dup as u8, label, hex(t.as_bytes())));
+        if i % 4 == 0 {
+            let g = gen_v2_group_doc(rng);
+            let dupg = ["zarr_format", "attributes"].iter().any(|k| g.fields.iter().filter(|f| f.0 == *k).count() > 1);
+            out.push(format!("c13 g2doc dup={} text={}", dupg as u8, hex(g.text().as_bytes())));
+        }
+    }
+}
+
 pub fn generate(tier: &str, seed: u64) -> Vec<String> {
     let thorough = tier == "thorough";
     let mut rng = Rng::new(seed ^ 0xC13);
@@ -502,5 +646,8 @@ pub fn generate(tier: &str, seed: u64) -> Vec<String> {
         for p in &paths { out.push(format!("c13 op children p={} rec=1", p)); out.push(format!("c13 op paths p={}", p)); out.push(format!("c13 op objs p={}", p)); }
         out.push("c13 op tree p=/".into());
     }
+    // V2 documents and the V2 -> V3 conversion against the model (own stream: the lines above stay as they were)
+    let mut rng2 = Rng::new(seed ^ 0xC13_0002);
+    generate_v2(&mut rng2, if thorough { 12000 } else { 1500 }, &mut out);
     out
 }
